@@ -426,6 +426,12 @@ class Check:
             import monitor
             if self.pid in monitor.BY_PROPERTY:
                 ok = monitor.run(self) and ok
+        if ok and self.thorough:
+            # independent re-check of the compiled regenerated-proof modules
+            todo = sorted({m for m, _, _, good in self.obligations if good and (
+                ".FnBridge" in m or ".ExcFlow" in m or m.endswith(".Monitor"))})
+            if todo:
+                self.leanchecker(todo)
         return ok
 
     def leanchecker(self, modules):
